@@ -161,6 +161,26 @@ var scenarios = []scenario{
 		ops:   []scOp{{0, "send", "A"}, {0.05, "send", "B"}, {0.1, "send", "A"}, {0.15, "send", "B"}, {0.3, "send", "C"}},
 		reply: map[string]float64{"r1": 0.5, "r2": 0.5, "r3": 0.1, "r4": 0.1, "r5": 0.1}, end: 4.5, only: []string{"ws.Write>|3"}, prop: "C07", scale: 4, stall: 1.0,
 		sigs: []string{"never-concluded"}},
+	// a ready token that arrives late: the pump is inside a slow Write for C while r1 (A) and r2 (B) are answered (two ready
+	// tokens, one slot), their contexts expire, and r4 is sent to A; whatever order the pump takes the waiting events in, r4
+	// (never answered) must be reported as timed out
+	{name: "s-late-ready-token", server: true, clients: []string{"A", "B", "C"},
+		ops:   []scOp{{0, "send", "A"}, {0.05, "send", "B"}, {0.3, "send", "C"}, {1.2, "send", "A"}},
+		reply: map[string]float64{"r1": 0.5, "r2": 0.5, "r3": 0.1, "r4": -1}, end: 5.0, only: []string{"ws.Write>|3"}, prop: "C08", scale: 4, stall: 1.5, repeat: 12,
+		sigs: []string{"never-concluded", "timeout-early"}},
+	// the same client id reconnects before the pump has processed the removal of the old connection (slow queue-map lookup):
+	// the time-out context of the old session's outstanding request must not hold up the first request of the new session
+	{name: "s-fast-reconnect", server: true, clients: []string{"A"},
+		ops:   []scOp{{0, "send", "A"}, {0.4, "disconnect", "A"}, {0.45, "connect", "A"}, {0.7, "send", "A"}},
+		reply: map[string]float64{"r1": -1, "r2": 0.1}, end: 4.0, only: []string{"qmap.Get<|4"}, prop: "C11", scale: 4, stall: 0.5,
+		sigs: []string{"never-concluded"}},
+	// the same client id reconnects while r1 is being dispatched (slow queue Peek after the queue was fetched): r1, a request of the
+	// old connection, goes out on the new one and is never answered; when it has timed out the requests of the new connection
+	// (r3, r4) must be written and answered
+	{name: "s-reconnect-orphan", server: true, clients: []string{"A"},
+		ops:   []scOp{{0, "send", "A"}, {0.1, "send", "A"}, {0.4, "disconnect", "A"}, {0.6, "connect", "A"}, {0.7, "send", "A"}, {0.8, "send", "A"}},
+		reply: map[string]float64{"r1": -1, "r3": 0.1, "r4": 0.1}, end: 5.0, only: []string{"queue.Peek<|1"}, prop: "C11", scale: 4,
+		sigs: []string{"never-concluded"}},
 	{name: "s-two-clients", server: true, clients: []string{"A", "B"},
 		ops:   []scOp{{0, "send", "A"}, {0.05, "send", "B"}, {0.5, "send", "A"}, {0.55, "send", "B"}},
 		reply: map[string]float64{"r1": -1, "r2": 0.1, "r3": 0.1, "r4": 0.1}, end: 3.2},
